@@ -427,8 +427,11 @@ func (sm *SealManager) performRootRotation(ctx context.Context, ns *namespace.Na
 
 	if isShamirSeal {
 		if len(newSealKey) > 0 {
+			// The barrier keeps its own records below the namespace's storage
+			// prefix (see AESGCMBarrier.Initialize); an unprefixed key would
+			// overwrite the root namespace's record.
 			err := b.Put(ctx, &logical.StorageEntry{
-				Key:   barrier.ShamirKekPath,
+				Key:   NamespaceStoragePathPrefix(ns) + barrier.ShamirKekPath,
 				Value: newSealKey,
 			})
 			if err != nil {
